@@ -7,7 +7,37 @@ COMMON_TRUSTED = [
     "Go toolchain, encoding/json, net, crypto/tls, gorilla/websocket, the Go scheduler and memory model are outside the model",
 ]
 
+CODEC_TRUSTED = ["Model A (coq/Codec) re-states envelope.go, message.go, notification.go, command.go, session.go, document.go, mediatype.go, node.go, identity.go; it starts at JSON value trees: the bytes<->tree step and the struct-decoding rules of encoding/json (case-insensitive member lookup, null handling, omitempty, integer parsing) are re-stated, not verified",
+                 "net/url is an oracle: each case carries how ParseLimeURI treated its URI texts; theorems assume only that a parsed URI's text parses to itself (uri_fix / uri_idem hypotheses, visible in the statements)"]
+
 PROPS = {
+    "C01": {
+        "title": "Envelope JSON round-trip preserves kind and content",
+        "design_ref": "DESIGN.md section 5, C01; section 4 Model A",
+        "technique": "Coq proof (structural induction over nested documents, per-field round-trip lemmas) + differential correspondence against json.Marshal/Unmarshal, the TCP and WebSocket receive paths and the text-form parsers",
+        "level_text": "Machine-checked proof (Coq 8.16.1, no axioms) that every well-formed envelope of the five kinds - all optional-field combinations, documents nested to any depth, any strings - encodes to a JSON tree that the typed decoder and the transports' kind discrimination decode back to the same envelope, and that String/Parse of nodes, identities and media types round-trip (every parser result is well-formed). Tied to the code on every run: generated envelopes are encoded and decoded by the real code (typed, TCP receive path over an injected connection, WebSocket receive path) and Go's encoding itself is compared as a tree with the model's; text forms are swept exhaustively over a 7-letter alphabet.",
+        "level_note": "Trusted: Coq kernel; hand-written Model A; harness and printers. Assumed: encoding/json's text<->tree step, float formatting, net/url (oracle with a stated idempotence law). Not covered by the model: objects with two members matching one struct field; registered custom document types beyond the five built-in factories (chat package).",
+        "trusted": CODEC_TRUSTED,
+        "assumptions": ["generic JSON payloads and metadata are compared in encoding/json's canonical form (sorted keys)", "valid UTF-8 without NUL bytes"],
+    },
+    "C02": {
+        "title": "Decoding untrusted bytes never crashes and is stable under re-encoding",
+        "design_ref": "DESIGN.md section 5, C02; section 4 Model A",
+        "technique": "Coq proof over all JSON value trees (no-panic by induction on fuel/tree, stability via 'decoders only return well-formed values' + the C01 round trip) + differential correspondence on structurally mutated trees and byte-level inputs",
+        "level_text": "Machine-checked proof (Coq 8.16.1, no axioms) that for every JSON value tree every typed decoder and the transport receive path return an envelope or an error, never a panic (every nil dereference of the Go code is an explicit Panic branch of the model, shown unreachable), and that every accepted value re-encodes to a tree the same decoder accepts as the same value. The refutations of both halves for the tree as found are theorems too (their witnesses are in the regression corpus). Tied to the code on every run by feeding systematically mutated encodings (every single mutation at every nesting level, sampled doubles), truncations, concatenations and byte flips to the real typed decoders and the real TCP receive path, with panics recovered and recorded, and comparing results and re-decodes inside Coq.",
+        "level_note": "Trusted: Coq kernel; Model A; harness. Assumed: encoding/json rejects invalid JSON text without panicking and its generic (map/interface) decode-encode is idempotent on canonical values; net/url oracle with the stated idempotence law. Outside the model's domain (checked on the implementation only, for no-panic and re-encode stability): objects with two members matching one field, non-canonical number literals in generic payloads, inputs that are not JSON.",
+        "trusted": CODEC_TRUSTED,
+        "assumptions": ["Go stack depth / encoding/json's nesting limit are not modelled (fuel stands for depth)"],
+    },
+    "C11": {
+        "title": "Replies built from an envelope are correctly correlated and addressed",
+        "design_ref": "DESIGN.md section 5, C11; section 4 Model A (Builders)",
+        "technique": "Coq proof (field equations of the builders + validity, round trip by the C01 theorem) + exhaustive differential correspondence against the real builders, Sender and the ping auto-reply on real sessions",
+        "level_text": "Machine-checked proof (Coq 8.16.1, no axioms) that for every request command / message - any id, every from/pp/to combination, any method, resource and reason - the responses and notifications built from it carry its id (and method), originate from its destination, are addressed to its sender (pp when present, else from), carry the stated status/reason/resource with the resource's media type, are valid envelopes and hence (C01 theorem) survive the wire; the refutation for the tree as found (inverted Sender, untyped ping reply) is a theorem as well. Tied to the code on every run: exhaustive sweep of from/pp/to x methods x builders x resource kinds against the real builders, wire round trip through the real TCP receive path, and ProcessCommand of a ping against real Server/Client sessions with AutoReplyPings over in-process, TCP and WebSocket.",
+        "level_note": "Trusted: Coq kernel; Model A builders; harness. The ping route also exercises session establishment, the mux and ProcessCommand, which are modelled elsewhere (C20, C05).",
+        "trusted": CODEC_TRUSTED,
+        "assumptions": [],
+    },
     "C20": {
         "title": "Each inbound envelope is dispatched to exactly the first matching handler",
         "design_ref": "DESIGN.md section 5, C20; section 4 Model F",
